@@ -95,15 +95,53 @@ def convert(t):
     else:
         raise SymPyException("Unable to convert " + str(t))
 
+def denominators(t):
+    """Return the list of denominators occurring in t."""
+    if t.is_divides():
+        return denominators(t.arg1) + denominators(t.arg) + [t.arg]
+    elif t.is_comb():
+        return denominators(t.fun) + denominators(t.arg)
+    elif t.is_abs():
+        return denominators(t.body)
+    else:
+        return []
+
+def nonzero_denominators(goal, var=None, interval=None):
+    """Whether all denominators in goal are nonzero (on the given interval).
+
+    SymPy simplifies x / x to 1, while division by zero is zero in HOL, so
+    a goal can be handed to SymPy only if no denominator can vanish.
+
+    """
+    for denom in denominators(goal):
+        try:
+            sympy_denom = convert(denom)
+        except SymPyException:
+            return False
+        if sympy_denom.free_symbols:
+            if var is None or sympy_denom.free_symbols != {var}:
+                return False
+            if sympy.solveset(sympy_denom, var, interval) != sympy.EmptySet:
+                return False
+        elif sympy_denom.is_zero is not False:
+            return False
+    return True
+
 def solve_goal(goal):
     """Attempt to solve goal using sympy."""
+    if not nonzero_denominators(goal):
+        return False
+
     if goal.is_not() and goal.arg.is_equals():
         try:
             lhs, rhs = convert(goal.arg.lhs), convert(goal.arg.rhs)
         except SymPyException:
             return False
 
-        return lhs != rhs
+        # Two expressions that are different as SymPy objects can still have
+        # equal values: the difference must be a nonzero constant.
+        diff = sympy.simplify(lhs - rhs)
+        return not diff.free_symbols and diff.is_zero is False
     elif goal.is_equals():
         try:
             lhs, rhs = convert(goal.lhs), convert(goal.rhs)
@@ -139,7 +177,13 @@ def solve_with_interval(goal, cond):
 
     var = convert(cond.arg1)
     interval = convert(cond.arg)
-    
+
+    try:
+        if not nonzero_denominators(goal, var, interval):
+            return False
+    except (TypeError, NotImplementedError, ValueError):  # raised by Sympy
+        return False
+
     if goal.is_not() and goal.arg.is_equals():
         try:
             sympy_goal = convert(goal.arg.arg1) - convert(goal.arg.arg)
